@@ -13,6 +13,7 @@ package main
 // chosencases/preload keys) as when pandora reads a config file; otherwise by http.NewProvider.
 // `cap` = the harness cancels the context when `cap` ammo have been acquired: greater than the number of ammo a
 // bounded cell delivers (never reached then), or smaller (the run is cancelled in the middle of a pass).
+// `pre=1`: the context is already cancelled when Run is called (outside the property; compared with the model only).
 // Headers (round 2): `fh=0:X-A:1;2:x-a:2` = the source declares header X-A: 1 at position 0 and x-a: 2 at position 2
 // (uri / uripost: a `[Key: val]` line before that entry, position n = after the last entry; http/json: a member of
 // that entry's "headers"; raw: a header line of that entry's request); `ch=X-C:c1;Host:cfg.example` = the provider's
@@ -115,6 +116,7 @@ type cellSpec struct {
 	uris, yaml    bool
 	fh            []c14cell.HdrAt
 	ch            []c14cell.Hdr
+	pre           bool
 }
 
 func (c cellSpec) line() string {
@@ -145,6 +147,9 @@ func (c cellSpec) line() string {
 	}
 	if c.yaml {
 		s += " via=yaml"
+	}
+	if c.pre {
+		s += " pre=1"
 	}
 	if len(c.fh) > 0 {
 		ps := make([]string, len(c.fh))
@@ -396,9 +401,6 @@ func gen(r *rand.Rand, tier string) []string {
 			for si, cases := range hsubsets {
 				for bi, b := range hbounds {
 					for lay := 0; lay < c14cell.Layouts(f); lay++ {
-						if !thorough && (hi+si+bi+lay)%2 == 1 {
-							continue
-						}
 						k := hi + si + bi + lay
 						add(cellSpec{format: f, tags: htags, cases: cases, limit: b[0], passes: b[1], layout: lay,
 							uris: k%3 == 0, yaml: k%4 == 1, fh: h.fh, ch: h.ch})
@@ -408,8 +410,23 @@ func gen(r *rand.Rand, tier string) []string {
 		}
 	}
 
+	// (G) outside the property's quantifier, for the model only: the context is cancelled BEFORE Run is called
+	// (`pre=1`).  Nothing may be delivered; how Run ends is what the model says (streaming: context.Canceled at once;
+	// preload: LoadAmmo of uri / uripost / raw looks at the context, http/json does not and may end with "no ammo").
+	for fi, f := range formats {
+		for ti, tags := range [][]string{{"a", "b", "a"}, {"b"}, {}} {
+			for si, cases := range [][]string{nil, {"a"}, {"zz"}} {
+				for bi, b := range [][2]int{{0, 0}, {2, 0}, {0, 2}} {
+					k := fi + ti + si + bi
+					add(cellSpec{format: f, tags: tags, cases: cases, limit: b[0], passes: b[1], layout: k, uris: k%3 == 0,
+						yaml: k%2 == 0, pre: true})
+				}
+			}
+		}
+	}
+
 	// (E) random cells
-	extra := 5000
+	extra := 8000
 	maxN := 9
 	if thorough {
 		extra = 400000
@@ -564,6 +581,7 @@ func cellOf(input string, preload bool) c14cell.Cell {
 		Kind: kv["fmt"], Preload: preload, Limit: atoi(kv["limit"]), Passes: atoi(kv["passes"]),
 		Tags: listOf(kv["tags"]), Chosen: listOf(kv["cases"]), Cap: atoi(kv["cap"]), Layout: atoi(kv["junk"]),
 		Uris: kv["src"] == "uris", YAML: kv["via"] == "yaml", FH: parseFH(kv["fh"]), CH: parseCH(kv["ch"]),
+		Pre: kv["pre"] == "1",
 	}
 }
 
@@ -668,12 +686,16 @@ func crashClass(stderr string) string {
 	switch {
 	case strings.Contains(stderr, "concurrent map"):
 		return "concurrent-map"
+	case strings.Contains(stderr, "out of memory") || strings.Contains(stderr, "cannot allocate memory") ||
+		strings.Contains(stderr, "newosproc") || strings.Contains(stderr, "resource temporarily unavailable") ||
+		strings.Contains(stderr, "failed to create new OS thread"):
+		return "infra" // the machine, not the code under test
 	case strings.Contains(stderr, "fatal error:"):
 		return "fatal-error"
 	case strings.Contains(stderr, "panic:"):
 		return "panic"
 	}
-	return "died"
+	return "infra" // died without a runtime report (killed from outside)
 }
 
 // ask runs one side of a cell in a child.  crash = "" or the class of the crash that killed the child.
@@ -737,11 +759,21 @@ func ask(side byte, input string) (o c14cell.Obs, crash string, detail string) {
 }
 
 // runSide: a child that dies of a data race is reported at once (the race need not repeat); any other death is
-// reported only if a fresh child dies of the same cell again (a child killed from outside is not a finding).
+// reported only if a fresh child dies of the same cell again; a child that dies without a runtime report or of resource
+// exhaustion (killed from outside, no memory, no threads) is retried and, if that persists, observed as run=infra:…
+// (the judge skips the cell: not a finding).
 func runSide(side byte, input string) c14cell.Obs {
 	o, crash, detail := ask(side, input)
 	if crash != "" && crash != "concurrent-map" {
 		o, crash, detail = ask(side, input)
+	}
+	for try := 0; try < 3 && (crash == "infra" || crash == "spawn" || crash == "protocol"); try++ {
+		time.Sleep(300 * time.Millisecond)
+		o, crash, detail = ask(side, input)
+	}
+	if crash == "infra" || crash == "spawn" || crash == "protocol" {
+		// the child could not be run at all: the cell is skipped by the judge, never a finding
+		return c14cell.Obs{Run: "infra:" + crash, End: "crashed"}
 	}
 	if crash != "" {
 		if os.Getenv("C14_DEBUG") != "" {
@@ -756,18 +788,23 @@ func run(input string) string {
 	tags := listOf(drv.KV(input)["tags"])
 	s := runSide('s', input)
 	p := runSide('p', input)
-	tagsok, reqok := 1, 1
-	for _, o := range []c14cell.Obs{s, p} {
+	tagsok, reqok := 1, "1"
+	for k, o := range []c14cell.Obs{s, p} {
 		for i, id := range o.Seq {
 			if id < 0 || id >= len(tags) || o.SeqTags[i] != tags[id] {
 				tagsok = 0
 			}
 		}
-		if o.ReqBad != "" {
-			reqok = 0
+		if o.ReqBad != "" && reqok == "1" {
+			reqok = "0(" + "sp"[k:k+1] + ":" + strings.Map(func(r rune) rune {
+				if r == ' ' || r == '\t' || r == '=' {
+					return '_'
+				}
+				return r
+			}, o.ReqBad) + ")"
 		}
 	}
-	return fmt.Sprintf("%s %s tagsok=%d reqok=%d s.hd=%s p.hd=%s", side("s", s), side("p", p), tagsok, reqok, hdOf(s), hdOf(p))
+	return fmt.Sprintf("%s %s tagsok=%d reqok=%s s.hd=%s p.hd=%s", side("s", s), side("p", p), tagsok, reqok, hdOf(s), hdOf(p))
 }
 
 func class(input, obs string) string {
@@ -805,6 +842,9 @@ func class(input, obs string) string {
 	}
 	if kv["fh"] != "" || kv["ch"] != "" {
 		b += "+headers"
+	}
+	if kv["pre"] == "1" {
+		b = "precancelled"
 	}
 	return src + "/" + sel + "/" + b
 }
